@@ -21,6 +21,9 @@ CLAIMED = {
 CLAIMED["C13"] = ("fault_enumeration", "allocation-fault injection (budget sweep and fail-from-k via hook H1) over seeded call histories with a budget-ledger reference model checked after every operation",
     "Budget ledger model (initial, +expand, -shrink) checked against the tracker after every operation of seeded histories under 4-10 allocation-fault positions per stream; conservation after drop-all checked with the hook counter and with the public API alone. Fault positions are sampled per-mille of the fault-free allocation count / peak.",
     "Hook H1 counters are trusted (16 lines, add-only). Pool none, single caller.")
+CLAIMED["C07"] = ("exploration", "seeded task schedules through a simulated thread pool (hook H2) plus real rayon pools and concurrent callers, against a no-pool reference",
+    "Bit-identical samples and identical Ok/Err verdicts across 6-32 seeded task-granular schedules per stream through the simulated pool (incl. deferred background renders), repetition, real pools of several sizes and concurrent callers. Sampling of schedules, task-granular.",
+    "The simulated pool executes tasks atomically on one OS thread; overlapping-memory races are outside it (C02).")
 NOT_APPLICABLE = {}
 
 def main():
